@@ -580,6 +580,16 @@ struct Ctx
   [[noreturn]] void fail(const std::string & msg) {throw Failure{msg};}
   void check(bool cond, const std::string & msg) {if (!cond) {throw Failure{msg};}}
   [[noreturn]] void skip() {throw Skip{};}
+  // a defect of the harness itself (never a verdict about the library): the process exits with status 3,
+  // which the driver reports as HARNESS-ERROR
+  void harnessCheck(bool cond, const std::string & msg)
+  {
+    if (!cond) {
+      fprintf(stderr, "HARNESS-ERROR harness self-check failed: %s\n", msg.c_str());
+      fflush(stderr);
+      _exit(3);
+    }
+  }
 
   // a recorded known finding was matched by its signature
   void known(const std::string & id, const std::string & what) {knownHits.emplace_back(id, what);}
